@@ -239,6 +239,9 @@ def gen(ctx):
         place(["rst", "zeros 512", "fin", "zeros 512"] + msg_ops(9101, 64, []), 4)
         execs.append(["zeros 4096", "fin", "zeros 4097"] + msg_ops(9102, 1, []))       # crosses 2^32 bytes; own execution
         stats["long"] += 4
+    # two hashers at the same time (objects must not share state): 4 KiB messages hashed 300 times by each thread
+    for k in range(2 if quick else 12):
+        place(["par %d %d %d %d %d" % (9200 + k, 4096 + 64 * k + 7, 9300 + k, 4000 + 13 * k, 300)], 2 * blocks(4200))
     # HMAC
     klens = list(range(0, 81)) + list(range(120, 141)) if quick else list(range(0, 201))
     mcycle = [0, 1, 31, 55, 56, 63, 64, 65, 119, 120, 128, 200]
